@@ -452,6 +452,12 @@ def assemble_unit(unit_name, unit_dir, cfg, extracted, prelude_files, canary=Fal
                     out.append((indent[:-4] + "{", {"k": "gen"}))
                 idx += 1
                 continue
+            m = re.match(r'^vx_debug_assert!\((\w+)\);$', stripped)
+            if m:
+                # R26: a `debug_assert!` of the code: its (already evaluated) condition is a proof obligation of the function
+                out.append((indent + f"proof {{ assert({m.group(1)}); }} // debug_assert! of the code (R26)", code_origin(idx + 1) | {"fn": cur_fn}))
+                idx += 1
+                continue
             m = re.match(r'^vx_fn_end!\((\w+)\);$', stripped)
             if m:
                 f_ = m.group(1)
